@@ -462,6 +462,8 @@ def replay(ctx, rep):
         return bool(hit), (hit[0]['observed'] if hit else 'the PING after the burst is answered')
     if rep['key'].startswith(('C09:bound:queued', 'C09:ping:budget')):
         return replay_bound(case)
+    if ':work:' in rep.get('key', ''):
+        return tg.replay_work(case)
     s, wrote = tg.replay_script(case)
     try:
         t = s.t
